@@ -118,3 +118,30 @@ func VerifC02_flatten_unflatten_inverse() {
 	c02Same(FromMap(orig), FromMap(back), "C02/flatten-unflatten")
 	verifReach("C02/flatten/end")
 }
+
+// the same with two-byte symbolic keys (numeric-looking names such as "01", "+1", "1x", "10"
+// included) on a one-level map of one or two entries: only the exact key sequence "1".."n"
+// is rebuilt as an array, and two-byte keys can form it only as {"1"... } — never — or not at all,
+// so every such map must come back as the same map
+//verif:opts maxpaths=100000 unwind=200
+func VerifC02_flatten_unflatten_two_byte_keys() {
+	sep := []string{".", ":"}[verifChoice("sep", 2)]
+	k1 := verifString("k1", 2)
+	k2 := verifString("k2", 2)
+	for i := 0; i < 2; i++ {
+		verifAssume(k1[i] != '.' && k1[i] != ':' && k2[i] != '.' && k2[i] != ':')
+	}
+	verifAssume(k1 != k2)
+	inner := NewMlrmap()
+	inner.PutReference(k1, FromInt(verifInt64("leaf1")))
+	if verifChoice("two", 2) == 1 {
+		inner.PutReference(k2, FromString("v"))
+	}
+	rec := NewMlrmapAsRecord()
+	rec.PutReference("x", FromMap(inner))
+	orig := rec.Copy()
+	rec.Flatten(sep)
+	back := rec.CopyUnflattened(sep)
+	c02Same(FromMap(orig), FromMap(back), "C02/flatten-unflatten-2")
+	verifReach("C02/flatten2/end")
+}
